@@ -1014,7 +1014,7 @@ func (g *c12gen) val() string {
 }
 
 func (g *c12gen) key(nkeys int) string {
-	alphabet := []string{"61", "62", "6162", "ff", "00", "6b65792d30303031", "6d", "7a7a", "6100", "63", "64", "65"}
+	alphabet := []string{"61", "62", "-", "6162", "ff", "00", "6b65792d30303031", "6d", "7a7a", "6100", "63", "64", "65"} // "-" = the empty key
 	if nkeys > len(alphabet) {
 		nkeys = len(alphabet)
 	}
@@ -1153,7 +1153,7 @@ func genC12(w *bufio.Writer, seed int64, n int, tier string) {
 		}
 		fmt.Fprintf(w, "full\nretire\n")
 		for k := 0; k < nkeys; k++ {
-			fmt.Fprintf(w, "get %s\n", []string{"61", "62", "6162", "ff", "00", "6b65792d30303031", "6d"}[k])
+			fmt.Fprintf(w, "get %s\n", []string{"61", "62", "-", "6162", "ff", "00", "6b65792d30303031", "6d"}[k])
 		}
 		fmt.Fprintf(w, "end\n")
 	}
